@@ -5,8 +5,7 @@ namespace ref {
 std::string be64min(uint64_t v) {
 	std::string s;
 	while (v) { s.insert(s.begin(), (char)(v & 0xff)); v >>= 8; }
-	if (s.empty()) s.push_back('\0'); // libksi writes zero as one 0x00 octet
-	return s;
+	return s; // zero is the empty octet string (libksi rejects a single 0x00 as non-minimal)
 }
 
 Tlv Tlv::raw(unsigned tag, const std::string &bytes) { Tlv t; t.tag = tag; t.val = bytes; return t; }
